@@ -13,7 +13,7 @@ for f in sorted(glob.glob('/verif/seeded/*/meta.json')):
         caught.append('P: ' + '; '.join(sorted({o.split('/')[0].split('.', 1)[1] for o in pobs})))
     if bobs:
         caught.append('B: ' + '; '.join(sorted({o.split('/', 1)[1] for o in bobs})))
-    first = 'missed, check strengthened' if str(m.get('history', '')).startswith('MISSED') else ('B only, P added' if 'first detected by the bounded' in str(m.get('history', '')) else 'yes')
+    first = 'missed, check strengthened' if str(m.get('history', '')).upper().startswith('MISSED') else ('B only, P added' if 'first detected by the bounded' in str(m.get('history', '')) else 'yes')
     rows.append(f"| {m['id']} | {m['files'][0].replace('src/pylife/', '')} | {m['description'][:150]} | {first} | {' / '.join(caught) if caught else 'NOT DETECTED'} |")
 table = "| seed | file | change | detected as first built | failing obligations now |\n|------|------|--------|-------------------------|--------------------------|\n" + "\n".join(rows)
 s = open('/verif/DESIGN.md').read()
